@@ -182,7 +182,8 @@ def rename_contract(lib, key, fdef):
     cur = ordered_locals(fdef)
     if cur == rec or len(cur) != len(rec):
         return c, {}
-    mapping = {o: n for o, n in zip(rec, cur) if o != n}
+    # `result` in a contract always means the returned value, never a local that happens to be called result
+    mapping = {o: n for o, n in zip(rec, cur) if o != n and o != 'result'}
     if not mapping or set(mapping.values()) & (set(rec) - set(mapping)):
         return c, {}
     raw = copy.deepcopy(lib.raw_contracts[key])
